@@ -109,7 +109,11 @@ Step(rec) ==
          LET live == {i \in Ids : Alive(st[i], rec.now)}
              ends == {x.id : x \in SentOf(rec, "End")} IN
          /\ Clause("end_to_every_live_subscription",
-                   rec.sendEnd => \A i \in live : i \in ends \/ (~st[i].endTo /\ Broken(rec, st[i])))
+                   \* (real SoapClient: once a SubscriptionEnd exchange with an endpoint failed at socket level in this
+                   \*  step, the pooled connection is closed and further messages to that endpoint are not transmitted)
+                   rec.sendEnd => \A i \in live : \/ i \in ends
+                                                   \/ (~st[i].endTo /\ Broken(rec, st[i]))
+                                                   \/ (st[i].endTo /\ rec.real /\ st[i].owner \in Rng(rec.broke_end)))
          /\ Clause("no_end_when_switched_off", ~rec.sendEnd => rec.sent = <<>>)
          /\ Clause("end_exactly_once", Once(rec))
          /\ Clause("end_addressed_to_endto_else_notifyto",
